@@ -12,6 +12,9 @@
 //!   stats.txt   input distribution
 #[path = "../rvdb.rs"]
 mod rvdb;
+// allocation-record mode (`c07 rec ...`): coq/Txn/AllocRec.v correspondence, see c07_rec.rs
+#[path = "../c07_rec.rs"]
+mod c07_rec;
 
 use redb::{CompactionError, Database, SavepointError, Savepoint, WriteTransaction};
 use rv_harness::backend::RecBackend;
@@ -804,6 +807,10 @@ impl H {
 fn main() {
     silence_panics();
     let args: Vec<String> = std::env::args().collect();
+    if args.get(1).map(|s| s.as_str()) == Some("rec") {
+        c07_rec::main_rec(&args);
+        return;
+    }
     let n: u64 = args.get(1).and_then(|s| s.parse().ok()).unwrap_or(50);
     let only: Option<u64> = args.get(2).and_then(|s| s.parse().ok());
     let seed = seed_from_env();
